@@ -59,7 +59,8 @@ structure Cls where
   proto : Nat            -- 0 none, 1 tcp, 2 udp, 3 icmp
   guarded : Bool
   ctorRuns : Bool := false   -- applications whose `__init__` ends with `self.run()` (web-browser, c2-server)
-  baseRoutes : Bool := true  -- does `_init_request_manager` start from `super()._init_request_manager()` (NMAP does not)
+  baseRoutes : Bool := true  -- does `_init_request_manager` start from `super()._init_request_manager()`
+  genericExecute : Bool := true  -- `execute` is Application's generic one (false: the class registers its own over it)
 deriving DecidableEq, Repr
 
 structure Meta where
@@ -177,6 +178,7 @@ inductive Out
   | raised                            -- Python raises
   | recv (l : List (Nat × Bool))      -- objects whose `receive` was invoked, and whether they got past the running-guard
   | ignored                           -- frame dropped by HostNode.receive_frame
+  | unmodelled                        -- a class-specific `execute` (its own operation): outside this model
 deriving DecidableEq, Repr
 
 namespace Node
@@ -237,7 +239,8 @@ def appEvs (n : Node) (op : Op) (i : AppInst) : List AppEv :=
   | .appReq name r =>
     if n.isOn then
       match dget name n.appRoutes with
-      | some u => if u = i.m.uid ∧ i.m.cls.baseRoutes ∧ r.passes i.a.st then [r.ev] else []
+      | some u =>
+        if u = i.m.uid ∧ i.m.cls.baseRoutes ∧ (r = .execute → i.m.cls.genericExecute) ∧ r.passes i.a.st then [r.ev] else []
       | none => []
     else []
   | .appApi u e =>
@@ -383,7 +386,10 @@ def appReqOut (n : Node) (name : String) (r : AppReq) : Out :=
   | none => .status .unreachable
   | some u =>
     match n.findApp u with
-    | some i => if i.m.cls.baseRoutes then .status (i.a.request r).2 else .status .unreachable
+    | some i =>
+      if !i.m.cls.baseRoutes then .status .unreachable
+      else if r = .execute ∧ !i.m.cls.genericExecute then .unmodelled
+      else .status (i.a.request r).2
     | none => .raised
 
 /-! ### one operation -/
@@ -401,7 +407,7 @@ def step (n : Node) (op : Op) : Node × Out :=
     else if dhas name n.software then (n, .status .success)      -- "already installed"
     else
       match c with
-      | none => (n, .raised)                                       -- KeyError: Application._registry[name]
+      | none => (n, .status .failure)                              -- "unknown application"
       | some (c, listen) =>
         -- install(cls); then `self.applications[uuid] = inst`, the route again (both already there), `inst.install()`
         let n1 := n.installApp c listen .good 2
